@@ -106,6 +106,13 @@ pub fn suffix_check(img: &Image, cfg: &CfgSpec, snap: Snapshot, sel: u64, max_id
         run.exec(&OpSpec::Append { n: 1, term: TermSel::Same, first: FirstSel::Zero, pay: PaySel::Tiny(3) })?;
         run.check_full_read()?;
         run.flush_and_settle()?;
+        // what a restart leaves behind must itself survive restarts: two more, the first right
+        // away (nothing written in between), the second after one more write
+        reopen_checked(&mut run, &cfg2)?;
+        reopen_checked(&mut run, &cfg2)?;
+        run.exec(&OpSpec::Vote { bump: 1, node: 2 })?;
+        reopen_checked(&mut run, &cfg2)?;
+        run.check_full_read()?;
         Ok(())
     }));
     let r = match r {
@@ -118,46 +125,6 @@ pub fn suffix_check(img: &Image, cfg: &CfgSpec, snap: Snapshot, sel: u64, max_id
         f.key = format!("after-recovery/{}", f.key);
         f
     })
-}
-
-/// Trace the recovery of `img` itself and return the recording (for crash-during-recovery).
-fn record_recovery(img: &Image, cfg: &CfgSpec, outer: &Recorded) -> Option<(Recorded, Shadow)> {
-    let dir = fresh_dir("rcv");
-    shadowfs::write_image(&dir, img).ok()?;
-    trace::begin(&dir);
-    let res = Run::attach(&dir, cfg, Snapshot::default(), false);
-    if let Ok(mut run) = res {
-        run.finish();
-    }
-    let ctl = trace::end();
-    remove_dir(&dir);
-    let mut init = Shadow::new(ctl.names.len());
-    for (id, name) in ctl.names.iter().enumerate() {
-        if let Some(d) = img.get(name) {
-            init.files[id] = SFile { exists: true, content: d.clone(), durable: d.clone(), ever_created: true, ..Default::default() };
-        }
-    }
-    // files of the image that recovery never touched keep their place too
-    let mut names = ctl.names.clone();
-    for (name, d) in img {
-        if !names.contains(name) {
-            names.push(name.clone());
-            init.files.push(SFile { exists: true, content: d.clone(), durable: d.clone(), ever_created: true, ..Default::default() });
-        }
-    }
-    let rec = Recorded {
-        trace: ctl.trace,
-        names,
-        model: outer.model.clone(),
-        flushes: vec![],
-        records_after_op: vec![],
-        classes: Default::default(),
-        excluded: 0,
-        faults_hit: 0,
-        hard_faults_hit: 0,
-        layout: None,
-    };
-    Some((rec, init))
 }
 
 /// Highest log id that ever appeared in the history (appended or purged-to).
@@ -275,7 +242,7 @@ impl Prop for C05 {
             // crash during recovery
             if depth2_budget > 0 && needs_repair(&ci.img) {
                 depth2_budget -= 1;
-                if let Some((rec2, init)) = record_recovery(&ci.img, &icfg, &rec) {
+                if let Some((rec2, init)) = crash::record_recovery(&ci.img, ci.durable.as_ref(), &icfg, &rec) {
                     crash::enumerate_images(&rec2, init, mix(case.sel, 77), 3, false, |c2| {
                         evals += 1;
                         *labels.entry("image_depth2".into()).or_insert(0) += 1;
